@@ -114,6 +114,9 @@ POSITIONS = {
     "shipped_tag_arg": "pipeline:\n  - !LinearController {rate: %(h)s}\n  - !VPool\n",
     # the refused document also has a logging section naming a factory: nothing of a refused document may be applied
     "beside_logging_factory": "logging: {version: 1, disable_existing_loggers: false, handlers: {h: {'()': vcanary_cold.handler}}, loggers: {verif.c18: {handlers: [h]}}}\npipeline:\n  - !VPool\nvextra: {a: %(h)s}\n",
+    # in a plain nested container that is still being filled in when an eagerly evaluated tag is constructed later on
+    "pending_container_before_eager_tag": "vextra: {a: {b: [%(h)s]}}\npipeline:\n  - !VDeco\n  - !VPoolNow {x: 1}\n",
+    "lazy_element_before_eager_tag": "pipeline:\n  - !VDeco {a: {deep: [%(h)s]}}\n  - !VPoolNow [1]\n",
     # under a top-level key that looks "hidden" (a place for anchors): still part of the document
     "hidden_top_level_key": ".defaults: {a: %(h)s}\npipeline:\n  - !VPool\n",
     "hidden_top_level_list": ".anchors:\n  - &x %(h)s\npipeline:\n  - !VPool\n",
@@ -209,8 +212,11 @@ class Canaries:
         return False
 
 
+SUFFIX = [".yaml"]  # the extension used for the next file: both spellings select the YAML loader
+
+
 def write_config(text):
-    with tempfile.NamedTemporaryFile("w", suffix=".yaml", prefix="cobald-verif-", delete=False) as f:
+    with tempfile.NamedTemporaryFile("w", suffix=SUFFIX[0], prefix="cobald-verif-", delete=False) as f:
         f.write(text)
         return f.name
 
@@ -275,6 +281,9 @@ def run_product(spec, result):
         if only is not None and i != only:
             continue
         case = cases[i]
+        SUFFIX[0] = ".yml" if i % 3 == 0 else ".yaml"
+        if SUFFIX[0] == ".yml":
+            result.count("hostile_documents_in_yml_files")
         hostile = hostile_nodes_by_label()[case["label"]]
         special = {"root": "{pipeline: [!VPool ]}", "pipeline_element": "!VDeco", "pipeline_tail": "!VPool", "mapping_key": "plainkey",
                    "lazy_tag_mapping_key": "plainkey", "eager_tag_mapping_key": "plainkey", "shipped_tag_arg": "2", "merge_value": "{a: 1}"}
@@ -393,7 +402,7 @@ def run_shard(spec):
 
 
 def finish(total, tier):
-    need = ["hostile_documents", "benign_twins_loaded", "canary_selftests_fired", "hostile_documents_replacing_a_loaded_file_in_place"] + ["position_" + p for p in POSITIONS]
+    need = ["hostile_documents", "benign_twins_loaded", "canary_selftests_fired", "hostile_documents_replacing_a_loaded_file_in_place", "hostile_documents_in_yml_files"] + ["position_" + p for p in POSITIONS]
     need += ["kind_" + k for k in ("apply-list", "object", "new", "name", "module", "typed", "untagged-list")]
     for name in need:
         if not total.counters.get(name) and not total.violations:
